@@ -307,6 +307,13 @@ class Tr:
                 a, b = [t.id for t in s.targets[0].elts]
                 return 'let %s := nrows %s in let %s := ncols %s in\n  %s' % (
                     a, self.img(v.value), b, self.img(v.value), self.block(rest, tail))
+            # a, b = x, y  (simultaneous assignment)
+            if (len(s.targets) == 1 and isinstance(s.targets[0], ast.Tuple) and isinstance(v, ast.Tuple)
+                    and len(v.elts) == len(s.targets[0].elts) and len(v.elts) >= 2
+                    and all(isinstance(t, ast.Name) for t in s.targets[0].elts)):
+                names = ', '.join(t.id for t in s.targets[0].elts)
+                vals = ', '.join(self.value(x) for x in v.elts)
+                return "let '(%s) := (%s) in\n  %s" % (names, vals, self.block(rest, tail))
             # Q0, Q1, Q2, Q3 = Q
             if isinstance(s.targets[0], ast.Tuple) and isinstance(v, ast.Name):
                 names = ', '.join(t.id for t in s.targets[0].elts)
